@@ -119,6 +119,8 @@ func init() {
 			c.runArgSwap("ARGSWAP", pkgs, baseIn("light.go", "focus_point.go", "material.go"), nil)
 			c.floor("ARGSWAP", 40)
 			c.floor("ARGROLE", 40)
+			c.runRoulette("ROULETTE", append(c.libPkgs()[3:4:4], c.fixturePkg("u")))
+			c.floor("ROULETTE", 2)
 			c.runSamplerPair("SAMPLERPAIR", c.libPkgs()[3:4])
 			c.floor("SAMPLERPAIR", 3)
 			// area-proportional selection of a triangle / sub-light
@@ -126,6 +128,12 @@ func init() {
 			c.floor("CUMTAB", 2)
 		},
 		SelfTest: []Mutation{
+			{Name: "mixture sampler compares the draw with each probability alone", File: "render3d/material.go",
+				Old: "\t\tp -= subProb\n\t\tif p < 0 || i == len(j.Probs)-1 {\n\t\t\treturn j.Materials[i].SampleSource(gen, normal, dest)", New: "\t\tif p < subProb || i == len(j.Probs)-1 {\n\t\t\treturn j.Materials[i].SampleSource(gen, normal, dest)", Rule: "ROULETTE", Expect: "SampleSource"},
+			{Name: "focus density drops the inside-the-sphere fallback", File: "render3d/focus_point.go",
+				Old: "\tif s.Center.Dist(point) < s.Radius || !s.focusMaterial(mat) {\n\t\treturn mat.SourceDensity(normal, source, dest)", New: "\tif !s.focusMaterial(mat) {\n\t\treturn mat.SourceDensity(normal, source, dest)", Rule: "SAMPLERPAIR", Expect: "SphereFocusPoint"},
+			{Name: "refraction density uses the source direction for the Fresnel term", File: "render3d/material.go",
+				Old: "\treflect := r.reflectAmount(normal, dest)\n\treflected := normal.Reflect(dest).Scale(-1)\n\trefracted := r.refractInverse(normal, dest)\n\tvar density float64", New: "\treflect := r.reflectAmount(normal, source)\n\treflected := normal.Reflect(dest).Scale(-1)\n\trefracted := r.refractInverse(normal, dest)\n\tvar density float64", Rule: "SAMPLERPAIR", Expect: "reflectAmount"},
 			{Name: "cylinder shaft sampled at radius 1 (defect F12)", File: "render3d/light.go",
 				Old: ".Add(radialPart.Scale(c.cylinder.Radius))", New: ".Add(radialPart)", Rule: "UNIT", Expect: "CylinderAreaLight"},
 			{Name: "cylinder shaft sampled along the unit axis", File: "render3d/light.go",
